@@ -521,11 +521,79 @@ func c07OriginsUntil(w *World, f *c07Frame, v ssa.Value, guards map[string]strin
 					return
 				}
 			}
+		case *ssa.UnOp:
+			// a variable captured by the closure whose frame this is: it holds the one value the enclosing function
+			// stored into it before the call of the closure (c07CapturedValue)
+			if fv, isFV := x.X.(*ssa.FreeVar); isFV && x.Op == token.MUL {
+				if bv := c07CapturedValue(f, fv); bv != nil {
+					walk(f.Up, bv, g, depth+1)
+					return
+				}
+			}
 		}
 		out = append(out, c07Origin{v, f, g})
 	}
 	walk(f, v, guards, 0)
 	return out, complete
+}
+
+// c07Before: a is executed before b on every path that reaches b (same function): a stands earlier in b's block, or in a
+// block that dominates b's.
+func c07Before(a, b ssa.Instruction) bool {
+	if a == nil || b == nil || a.Parent() != b.Parent() || a.Block() == nil || b.Block() == nil {
+		return false
+	}
+	if a.Block() != b.Block() {
+		return a.Block().Dominates(b.Block())
+	}
+	for _, in := range a.Block().Instrs {
+		if in == a {
+			return true
+		}
+		if in == b {
+			return false
+		}
+	}
+	return false
+}
+
+// c07CapturedValue: what a load of the captured variable fv yields inside the closure whose frame f is (entered through
+// f.Call, a call of the very function value the enclosing function made: the callee operand is the MakeClosure).
+//
+// go/ssa captures variables by reference: the binding is the enclosing function's cell (Alloc). The load yields value X if
+//   - the cell is written by exactly one Store of X in the whole program (singleStore: no second store, no write through a
+//     field/element address, the address does not escape, no closure that captures the cell writes it), and
+//   - that Store is executed before the call of the closure on every path reaching the call (c07Before). The cell is
+//     allocated before the Store (the Store uses it), so between the last allocation and the call the Store has run: the
+//     cell the closure was bound to holds X, not the zero value it was created with.
+//
+// nil: not decidable this way (the value is then reported as an origin as it stands, which no clause accepts).
+func c07CapturedValue(f *c07Frame, fv *ssa.FreeVar) ssa.Value {
+	if f == nil || f.Up == nil || f.Call == nil || fv.Parent() != f.Fn {
+		return nil
+	}
+	mc, ok := f.Call.Call.Value.(*ssa.MakeClosure)
+	if !ok || mc.Fn != ssa.Value(f.Fn) || f.Call.Parent() != f.Up.Fn {
+		return nil
+	}
+	for i, x := range f.Fn.FreeVars {
+		if x != fv || i >= len(mc.Bindings) {
+			continue
+		}
+		al, isAlloc := mc.Bindings[i].(*ssa.Alloc)
+		if !isAlloc || al.Parent() != f.Up.Fn || singleStore(al) == nil {
+			return nil
+		}
+		for _, r := range *al.Referrers() {
+			if st, isSt := r.(*ssa.Store); isSt && st.Addr == ssa.Value(al) {
+				if c07Before(st, f.Call) {
+					return st.Val
+				}
+				return nil
+			}
+		}
+	}
+	return nil
 }
 
 // c07WalkReturns visits operand k of the Returns of nf.Fn that can have delivered the call's result: all of them, or —
@@ -1617,6 +1685,208 @@ func c07GeneratorCalls(w *World) []c07GenCall {
 	return out
 }
 
+// c07GenSite: one invocation of a generator, seen from the function in whose vocabulary the rule is decided.
+//
+// Normally that is the function the invocation stands in (Root == In, F the root frame). When the algorithm handed to the
+// generator (or the key of the table it was looked up with) is not determined inside that function — it is a parameter of
+// the function, or a variable the closure captured — the function is only the place where the evaluation was written
+// down: which algorithm the generator gets is decided by whoever calls it. If the function can be entered only through a
+// closed list of static calls (c07EntrySites: an unexported module function that is never used as a value, or a function
+// literal whose value is only ever called by the function that made it), the invocation is decided once per call site, in
+// the caller (Root), with F the chain of frames from the caller down to the invocation: a parameter then reads as the
+// argument of that call (c07OriginsUntil), a captured variable as the value its cell holds at the call (c07CapturedValue),
+// and the facts known at the invocation are those of every call on the chain plus those of the invocation itself
+// (c07SiteGuards). The clause "every evaluation of a generator gets R[hash bound to the key / signature algorithm]" holds
+// for the helper iff it holds at every one of its call sites, so nothing is lost; with an open list of callers the site is
+// left in the function itself (Open says why) and the parameter is reported as what it is: not a table applied to a key.
+type c07GenSite struct {
+	c07GenCall
+	Root *ssa.Function
+	F    *c07Frame
+	Open string
+}
+
+// c07EntrySites: the calls through which fn can be entered, and whether that list is exhaustive.
+// A named function: c07CallSites. A function literal: its function value (the MakeClosure, or the function itself when it
+// captures nothing) is made once, by its parent, and every use of that value in the parent is as the callee operand of a
+// plain call (not an argument, not stored, not returned, not deferred or started as a goroutine).
+func c07EntrySites(w *World, fn *ssa.Function) (sites []*ssa.Call, closed bool) {
+	parent := fn.Parent()
+	if parent == nil {
+		return c07CallSites(w, fn)
+	}
+	var val ssa.Value = fn
+	n := 0
+	for _, b := range parent.Blocks {
+		for _, in := range b.Instrs {
+			if mc, ok := in.(*ssa.MakeClosure); ok && mc.Fn == ssa.Value(fn) {
+				val = mc
+				n++
+			}
+		}
+	}
+	if n > 1 {
+		return nil, false
+	}
+	closed = true
+	for _, b := range parent.Blocks {
+		for _, in := range b.Instrs {
+			if iv, isVal := in.(ssa.Value); isVal && iv == val {
+				continue
+			}
+			for _, op := range in.Operands(nil) {
+				if op == nil || *op != val {
+					continue
+				}
+				call, isCall := in.(*ssa.Call)
+				if _, isDbg := in.(*ssa.DebugRef); isDbg {
+					continue
+				}
+				if !isCall || call.Call.IsInvoke() || call.Call.Value != val {
+					closed = false
+					continue
+				}
+				asArg := false
+				for _, a := range call.Call.Args {
+					if a == val {
+						asArg = true
+					}
+				}
+				if asArg {
+					closed = false
+					continue
+				}
+				sites = append(sites, call)
+			}
+		}
+	}
+	// a literal that captures nothing is a plain function value: another function literal of the same parent could name it
+	// only through a captured variable, i.e. a Store seen above
+	return sites, closed
+}
+
+// c07IsRootInput: the origin is something the root function of the walk was handed — its parameter, or (a closure) a
+// variable it captured.
+func c07IsRootInput(o c07Origin) bool {
+	if o.F == nil || o.F.Up != nil {
+		return false
+	}
+	switch x := o.V.(type) {
+	case *ssa.Parameter:
+		return x.Parent() == o.F.Fn
+	case *ssa.FreeVar:
+		return x.Parent() == o.F.Fn
+	case *ssa.UnOp:
+		fv, ok := x.X.(*ssa.FreeVar)
+		return ok && fv.Parent() == o.F.Fn
+	}
+	return false
+}
+
+func c07IsHashCall(v ssa.Value) bool {
+	c, ok := v.(*ssa.Call)
+	return ok && calleeName(c) == "(core/internal/algorithm.Algorithm).Hash" && len(c.Call.Args) == 1
+}
+
+// c07SiteGuards: the facts known whenever the instruction in (of frame f) is executed, in the root frame's vocabulary:
+// what every path to it must pass in its own function, and — for every call on the chain the frame was entered through —
+// what every path to that call must pass in the calling function.
+func c07SiteGuards(w *World, f *c07Frame, in ssa.Instruction) map[string]string {
+	g := f.liftAll(w.Info(f.Fn).GuardsOf(in))
+	for h := f; h.Up != nil; h = h.Up {
+		g = c07Union(g, h.Up.liftAll(w.Info(h.Up.Fn).GuardsOf(h.Call)))
+	}
+	if g == nil {
+		g = map[string]string{}
+	}
+	return g
+}
+
+// c07GeneratorSites: every generator invocation of the module, each as the sites it is decided at (c07GenSite).
+func c07GeneratorSites(w *World) []c07GenSite {
+	ts := c07HashTables(w)
+	byVal := map[ssa.Value]*c07TableApp{}
+	for _, a := range ts.Apps {
+		if a.Val != nil {
+			byVal[a.Val] = a
+		}
+	}
+	type link struct {
+		fn   *ssa.Function
+		call *ssa.Call // the call of fn in the function of the link above (nil for the top)
+	}
+	build := func(chain []link) *c07Frame {
+		var f *c07Frame
+		for _, l := range chain {
+			f = &c07Frame{Fn: l.fn, Call: l.call, Up: f}
+		}
+		return f
+	}
+	var out []c07GenSite
+	for _, gc := range c07GeneratorCalls(w) {
+		// handed: the algorithm, or the key it was looked up with, is (on some origin) an input of the top function
+		handed := func(f *c07Frame) bool {
+			origins, complete := c07OriginsUntil(w, f, gc.Call.Call.Args[0], nil, func(v ssa.Value) bool { return byVal[v] != nil })
+			if !complete {
+				return false
+			}
+			for _, o := range origins {
+				if c07IsRootInput(o) {
+					return true
+				}
+				if a := byVal[o.V]; a != nil && a.Key != nil {
+					ks, _ := c07OriginsUntil(w, o.F, unwrap(a.Key), nil, c07IsHashCall)
+					for _, k := range ks {
+						if c07IsRootInput(k) {
+							return true
+						}
+					}
+				}
+			}
+			return false
+		}
+		var expand func(chain []link)
+		expand = func(chain []link) {
+			f := build(chain)
+			top := chain[0].fn
+			site := c07GenSite{c07GenCall: gc, Root: top, F: f}
+			if !handed(f) {
+				out = append(out, site)
+				return
+			}
+			if len(chain) > 3 {
+				site.Open = "the callers of " + fnName(top) + " are too far up to follow"
+				out = append(out, site)
+				return
+			}
+			sites, closed := c07EntrySites(w, top)
+			if !closed || len(sites) == 0 {
+				site.Open = fnName(top) + " is handed the algorithm and its callers are not a closed list (exported, used as a value, or never called)"
+				out = append(out, site)
+				return
+			}
+			for _, cs := range sites {
+				caller := cs.Parent()
+				rec := caller == nil || len(cs.Call.Args) != len(top.Params)
+				for _, l := range chain {
+					if l.fn == caller {
+						rec = true
+					}
+				}
+				if rec {
+					site.Open = fnName(top) + " is handed the algorithm by a call that cannot be followed (recursion)"
+					out = append(out, site)
+					continue
+				}
+				nc := append([]link{{fn: caller}, {fn: top, call: cs}}, chain[1:]...)
+				expand(nc)
+			}
+		}
+		expand([]link{{fn: gc.In}})
+	}
+	return out
+}
+
 // c07AppliedTable: one origin of the algorithm a generator is invoked with, decided.
 type c07AppliedTable struct {
 	App   *c07TableApp
@@ -1637,7 +1907,9 @@ type c07AppliedTable struct {
 // the application may stand in the invoking function or in a module helper whose result (under a nil error, delivered
 // by its success exits only) is handed to the generator; the key and the found-fact are rewritten into the invoking
 // function's vocabulary (callee parameters = call arguments), so they can be compared with what that function was given.
-func c07GeneratorArgument(w *World, gc c07GenCall, want map[string]string) (apps []c07AppliedTable, why string) {
+// The invocation itself may stand below the deciding function (gs.F: a helper / closure that is handed the algorithm,
+// decided per call site — see c07GenSite); the walk then starts in that frame with the facts of the whole chain.
+func c07GeneratorArgument(w *World, gs c07GenSite, want map[string]string) (apps []c07AppliedTable, why string) {
 	ts := c07HashTables(w)
 	byVal := map[ssa.Value]*c07TableApp{}
 	for _, a := range ts.Apps {
@@ -1645,15 +1917,18 @@ func c07GeneratorArgument(w *World, gc c07GenCall, want map[string]string) (apps
 			byVal[a.Val] = a
 		}
 	}
-	root := &c07Frame{Fn: gc.In}
-	origins, complete := c07OriginsUntil(w, root, gc.Call.Call.Args[0], w.Info(gc.In).GuardsOf(gc.Call), func(v ssa.Value) bool { return byVal[v] != nil })
+	origins, complete := c07OriginsUntil(w, gs.F, gs.Call.Call.Args[0], c07SiteGuards(w, gs.F, gs.Call), func(v ssa.Value) bool { return byVal[v] != nil })
 	if !complete {
 		return nil, "the argument is too deep to follow"
 	}
 	for _, o := range origins {
 		a := byVal[o.V]
 		if a == nil {
-			return nil, "the generator may be invoked with " + o.F.lift(desc(o.V)) + ", which is not a hash table applied to a key"
+			why = "the generator may be invoked with " + o.F.lift(desc(o.V)) + ", which is not a hash table applied to a key"
+			if gs.Open != "" {
+				why += " (" + gs.Open + ")"
+			}
+			return nil, why
 		}
 		if a.Table.Rel == nil {
 			return nil, "the relation of " + a.Table.name() + " cannot be read: " + a.Table.Why
